@@ -76,7 +76,7 @@ impl Property for C07 {
 
     fn generate(rng: &mut Rng, _tier: Tier) -> Sc {
         // the starting point itself may be any name: only blanks, a newline in it, multi-byte
-        let root = rng.pick(&["t", "t", "t", "t", "t", "t", " ", "  ", "a b", "\t", "\u{e9}", "t\n", "'", "{}"]).to_string();
+        let root = rng.pick(&["t", "t", "t", "t", "t", "t", " ", "  ", "a b", "\t", "\u{e9}", "t\n", "'", "{}", "\u{feff}inbox", "\u{feff}", "#!x"]).to_string();
         let cfg = TreeCfg {
             roots: vec![root.clone()],
             max_entries: *rng.pick(&[0, 3, 8, 15, 25]),
